@@ -1,5 +1,5 @@
 HOOK_COMMITS = ["7de202d", "7f6c320", "bd5f58f", "f5c511f", "6cf08df", "6a57454"]
-FIX_COMMITS = ["7a73b90", "307c7cf", "73e9739", "b6ad768", "06a0422", "37593fd", "b26bda1", "ef4414e", "83534a3", "9d32858", "8df6799", "bfa46be", "d5169bc", "e984a30", "8e975df", "0e9fd95", "93bc5a2", "0df18c2", "dae6c16", "f32a1a0", "6b14b06", "641f662", "5fd891f", "12b678f", "5af4846", "35b9151", "1a0d573", "4dd26bc", "3419442", "a44aef0", "bfa15ff", "db4d047", "05ea952", "1883869", "befdf8c", "bcd23fd", "1927f9b", "ac62d90", "f75f317", "6a8014c", "daaa51f", "ba3fa7b", "5bbf9b9", "92b62e9", "81b93bb", "ccfba48", "848110b", "1f0fadd", "2e48913", "c4716f8", "602f313", "8ad806a", "f7e2646", "a761f43", "a95d6d3", "1f4e5d1", "5968289", "67f7513", "0cdfd90", "f9149ef", "24a4bde", "6db7650", "7be5856", "12116d5", "8fa59dd", "302302f", "1a27068", "aec32a0", "1ed8bc1", "0954d9e", "30a6747", "377b03c", "819437b", "dd2e4f2", "7751e1d", "b2198dd", "8117828", "708f7e5", "5530bbc", "6285bcf", "3a24e4e", "687f35a"]
+FIX_COMMITS = ["7a73b90", "307c7cf", "73e9739", "b6ad768", "06a0422", "37593fd", "b26bda1", "ef4414e", "83534a3", "9d32858", "8df6799", "bfa46be", "d5169bc", "e984a30", "8e975df", "0e9fd95", "93bc5a2", "0df18c2", "dae6c16", "f32a1a0", "6b14b06", "641f662", "5fd891f", "12b678f", "5af4846", "35b9151", "1a0d573", "4dd26bc", "3419442", "a44aef0", "bfa15ff", "db4d047", "05ea952", "1883869", "befdf8c", "bcd23fd", "1927f9b", "ac62d90", "f75f317", "6a8014c", "daaa51f", "ba3fa7b", "5bbf9b9", "92b62e9", "81b93bb", "ccfba48", "848110b", "1f0fadd", "2e48913", "c4716f8", "602f313", "8ad806a", "f7e2646", "a761f43", "a95d6d3", "1f4e5d1", "5968289", "67f7513", "0cdfd90", "f9149ef", "24a4bde", "6db7650", "7be5856", "12116d5", "8fa59dd", "302302f", "1a27068", "aec32a0", "1ed8bc1", "0954d9e", "30a6747", "377b03c", "819437b", "dd2e4f2", "7751e1d", "b2198dd", "8117828", "708f7e5", "5530bbc", "6285bcf", "3a24e4e", "687f35a", "673f6a4"]
 
 NOTE_COMMON = ("Trusted: Lean kernel (axioms propext/Classical.choice/Quot.sound only), the hand-written model's "
                "fidelity outside the sampled correspondence, rustc/std and third-party crates as black boxes, the guarded hooks.")
@@ -137,7 +137,7 @@ CLAIMS = {
                  "graphemes; the only panic (selection ending past the text) is excluded by the selection-inside-text invariant, with the pre-fix witness kept. "
                  "Every run feeds the real read_field's own (start cursor, post text, real segmentation, end cursor, selection) to the model and compares the field, "
                  "checks that motion/selection/yank commands leave the text byte-identical, and checks the field against the cursor-span / whole-line specification.",
-        "note": NOTE_COMMON + " PARTIAL: 'passive commands keep the text' is checked on the implementation for every generated command (and thorough: exhaustively on a small scope) but is not yet a theorem about the editor model; for text objects the selected text is the editor's own select_range; for block selections it is additionally computed from the two cursors alone (the rectangle between them, each row cut at its line's last character) whenever both corners sit on characters (a corner on a line terminator is counted, not judged: the property does not say what is selected there).",
+        "note": NOTE_COMMON + " PARTIAL: 'passive commands keep the text' is checked on the implementation for every generated command (and thorough: exhaustively on a small scope) but is not yet a theorem about the editor model; for text objects the selected text is the editor's own select_range; for block selections it is additionally computed from the two cursors alone (the rectangle between them, each row cut at its line's last character), corners on line terminators included (fix 673f6a4 made that true).",
         "technique": "Lean 4 proof parametric in the key engine (quantified over cursors, text and selection) + correspondence at read_field's boundary through the session hook",
     },
     "C18": {
